@@ -445,6 +445,7 @@ def check_layout(L, frag=None):
         elif cfirst[0] != "ok":
             out.append(("layout-config-rejected", repr(cfirst[1:])))
         else:
+            out.extend(same_relative_config_probe(root, L, cpath, schema))
             want_m = ["first", "from-inc1", "from-inc2", "from-inc4", "from-inc3", "last"]
             got = cfirst[1]["attrs"].get("m")
             if got != want_m or cfirst[1]["attrs"].get("b1") != "changed" or cfirst[1]["attrs"].get("b2") != "two" \
@@ -483,6 +484,49 @@ def same_relative_name_probe(root, L, spath):
             if has_decoy != want_decoy:
                 out.append(("shared-loader:relative-name-resolved-in-wrong-directory",
                             "loadURL(%r) from %s returned the schema of another directory" % (name, _rel(d, root))))
+    finally:
+        os.chdir(old)
+        os.remove(decoy)
+    return out
+
+
+def same_relative_config_probe(root, L, cpath, schema):
+    """The same relative configuration name, loaded from two current directories that hold
+    different files (entry points loadConfig and loadConfigFile): each load reads -- and, when it
+    fails, names -- the file of ITS directory."""
+    import ZConfig
+    out = []
+    name = os.path.basename(cpath)
+    other_dir = os.path.join(root, "zcv-decoy-conf")
+    os.makedirs(other_dir, exist_ok=True)
+    decoy = os.path.join(other_dir, name)
+    with open(decoy, "w", encoding="utf-8") as fh:
+        fh.write("m decoy\nnosuchkey here\n")
+    old = os.getcwd()
+    try:
+        for d, want_decoy in ((os.path.dirname(cpath), False), (other_dir, True), (os.path.dirname(cpath), False)):
+            os.chdir(d)
+            for how in ("loadConfig", "loadConfigFile"):
+                try:
+                    if how == "loadConfig":
+                        cfg, _h = ZConfig.loadConfig(schema, name)
+                    else:
+                        with open(name, encoding="utf-8") as fh:
+                            cfg, _h = ZConfig.loadConfigFile(schema, fh)
+                    got = ("ok", list(cfg.m))
+                except ZConfig.ConfigurationError as e:
+                    got = ("reject", getattr(e, "url", None), getattr(e, "lineno", None))
+                except Exception as e:  # noqa
+                    out.append(("relative-config:internal:%s" % type(e).__name__, str(e)[:200]))
+                    continue
+                if want_decoy:
+                    url = got[1] if got[0] == "reject" else None
+                    if got[0] != "reject" or got[2] != 2 or not str(url).endswith("/zcv-decoy-conf/" + pathname2url(name)):
+                        out.append(("relative-config-resolved-in-wrong-directory",
+                                    "%s(%r) from the decoy directory: %r" % (how, name, got)))
+                elif got[0] != "ok" or got[1][:1] != ["first"]:
+                    out.append(("relative-config-resolved-in-wrong-directory",
+                                "%s(%r) from its own directory: %r" % (how, name, got)))
     finally:
         os.chdir(old)
         os.remove(decoy)
